@@ -123,7 +123,6 @@ func execW1(t *testing.T, seed uint64, c *w1Case, cfg config.Config, script []mo
 	ex.probes = map[string]int{}
 	srng := simrt.NewRng(seed, "schedcfg")
 	scfg, _ := schedConfig(seed, srng)
-	scfg.Unclean = func(simrt.Result) { ex.unclean = true }
 	inDev, handlers := simInputDevice(c.d, 0)
 	ex.res = simrt.Run(t, scfg, func() {
 		logger.Messages = make(chan []byte, 1024)
@@ -189,6 +188,7 @@ func execW1(t *testing.T, seed uint64, c *w1Case, cfg config.Config, script []mo
 		}
 		fail := func(step int, v *model.Violation) {
 			ex.vio = &Vio{Props: v.Props, Clause: v.Clause, Detail: v.Detail, Step: step, Sig: c.scenario}
+			notePending(ex.vio, &Replay{World: "W1", Prop: prop, Seed: seed, Script: script, Override: true})
 		}
 		decode := func(raw [][]byte, step int) []model.Msg {
 			var ms []model.Msg
